@@ -26,18 +26,28 @@ def quals : List (Bool × Text) := [(false, []), (true, []), (false, S "deny"), 
 def mk (kind : String) (q : Bool × Text) (comment : Text) (flds : List Fld) : Rule :=
   { kind := kind, audit := q.1, accessType := q.2, comment := comment, flds := flds }
 
+/-- every capability name; every printed qualifier with and without a comment (full product:
+`C12Full`, thorough tier) -/
 theorem C12_capability_read :
-    ∀ n ∈ reqValues T "capability" "name", ∀ q ∈ quals, ∀ c ∈ [[], S " see #12, (x)"],
-      readsBack (mk "capability" q c [.l [n]]) = true := by decide +kernel
+    (∀ n ∈ reqValues T "capability" "name", readsBack (mk "capability" (true, S "deny") (S " see #12, (x)") [.l [n]]) = true) ∧
+    (∀ q ∈ quals, ∀ c ∈ [[], S " see #12, (x)"], readsBack (mk "capability" q c [.l [S "chown"]]) = true) := by
+  constructor <;> decide +kernel
 
 theorem C12_network_read :
-    ∀ d ∈ reqValues T "network" "domains", ∀ t ∈ reqValues T "network" "type",
-      readsBack (mk "network" (true, S "deny") (S " c") [.s [], .s [], .s [], .s d, .s t, .s []]) = true := by decide +kernel
+    (∀ d ∈ reqValues T "network" "domains",
+      readsBack (mk "network" (true, S "deny") (S " c") [.s [], .s [], .s [], .s d, .s (S "stream"), .s []]) = true) ∧
+    (∀ t ∈ reqValues T "network" "type",
+      readsBack (mk "network" (true, S "deny") (S " c") [.s [], .s [], .s [], .s (S "inet"), .s t, .s []]) = true) := by
+  constructor <;> decide +kernel
 
 theorem C12_signal_read :
-    ∀ a ∈ reqValues T "signal" "access", ∀ s ∈ reqValues T "signal" "set",
-      readsBack (mk "signal" (false, []) [] [.l [a], .l [s], .s (S "foo//bar")]) = true ∧
-      readsBack (mk "signal" (true, S "deny") (S " c") [.l [a], .l [s], .s []]) = true := by decide +kernel
+    (∀ a ∈ reqValues T "signal" "access",
+      readsBack (mk "signal" (false, []) [] [.l [a], .l [S "term"], .s (S "foo//bar")]) = true ∧
+      readsBack (mk "signal" (true, S "deny") (S " c") [.l [a], .l [S "term"], .s []]) = true) ∧
+    (∀ s ∈ reqValues T "signal" "set",
+      readsBack (mk "signal" (false, []) [] [.l [S "send"], .l [s], .s (S "foo//bar")]) = true ∧
+      readsBack (mk "signal" (true, S "deny") (S " c") [.l [S "send"], .l [s], .s []]) = true) := by
+  constructor <;> decide +kernel
 
 theorem C12_ptrace_read :
     ∀ a ∈ reqValues T "ptrace" "access", ∀ q ∈ quals,
